@@ -152,6 +152,8 @@ class NetRun:
         gw_kwargs = {"protocol_version": cfg.get("version_str", self.version)}
         assert tables.version_floor(gw_kwargs["protocol_version"]) == self.version
         self.fs = simfs.SimFS(bufsize=cfg.get("bufsize", 8192))
+        if cfg.get("slow_fsync"):
+            self.fs.op_delay["fsync"] = float(cfg["slow_fsync"])
         if self.persist:
             gw_kwargs["persistence"] = True
             gw_kwargs["persistence_file"] = f"/work/mysensors.{self.persist}"
@@ -921,6 +923,38 @@ class NetRun:
                 self.add(vio("reply-missing", {"expected": want, "got": lines, "model_kind": exp.kind}, model_kind=exp.kind))
 
     # -------------------------------------------------------------- controller ops
+    def op_setpair(self, first, second):
+        """Two set_child_value calls back to back (no settling in between)."""
+        world = self.world
+        want = []
+        for nid, cid, vtype, value in (first, second):
+            try:
+                world.call("set_child_value", nid, cid, vtype, value)
+            except kernel.SimAbort:
+                raise
+            except Exception:  # pylint: disable=broad-except
+                self.probe("set_refused")
+                continue
+            action, exp = self.model.set_child_value_plan(nid, cid, int(vtype), value, 0)
+            if action == "store":
+                self.model.store_desired(nid, cid, int(vtype), str(value))
+            else:
+                want += [e["line"] for e in exp.out]
+        world.settle()
+        out = self.out_lines()
+        self.new_callbacks()
+        self.health()
+        lines = [o[0] for o in out]
+        self.probe("set_pairs")
+        if lines != want:
+            missing = [w for w in want if w not in lines]
+            cls = "reply-missing" if missing else ("reply-spurious" if len(lines) > len(want) else "reply-wrong")
+            self.add(vio(cls, {"call": "two set_child_value calls back to back", "expected": want, "got": lines, "model_kind": "controller-set-pair"},
+                         model_kind="controller-set-pair"))
+        self._check_emitted(out, None)
+        self._check_state("set_child_value x2")
+        self.trace.append(("setpair", first[0], second[0], lines[:4]))
+
     def op_set(self, nid, cid, vtype, value, kw):
         world = self.world
         gateway = world.gateway
@@ -1102,12 +1136,13 @@ class NetRun:
         if late_line is not None:
             # what the gateway held when it stopped (a line it still handled during stop() counts)
             before = W.projection(stopped_gateway.sensors)
-            for text, _ok in self.out_lines():
-                parts = text.split(";")
-                if len(parts) == 6 and parts[2] == "3" and parts[4] == "4" and tables.canonical_int(parts[5]):
-                    self.ids_all.append(int(parts[5]))
-                    self.probe("id_handed_out_during_stop")
-        self.out_lines()
+        # ids handed out while stop() was in progress (a line delivered during the last save, or at the moment
+        # the final save had been written) count as handed out for the lifetimes that follow
+        for text, _ok in self.out_lines():
+            parts = text.split(";")
+            if len(parts) == 6 and parts[2] == "3" and parts[4] == "4" and tables.canonical_int(parts[5]):
+                self.ids_all.append(int(parts[5]))
+                self.probe("id_handed_out_during_stop")
         self.health()
         self.lifetime += 1
         if disk_at_stop is not None and late_line is None:
@@ -1292,6 +1327,8 @@ class NetRun:
                     self._deliver_and_observe(text, "\n", raw=raw + b"\n")
             elif kind == "chunk":
                 self.op_chunk([(it[0], it[1] if len(it) > 1 else "\n") for it in op[1]])
+            elif kind == "setpair":
+                self.op_setpair(op[1], op[2])
             elif kind == "set":
                 self.op_set(op[1], op[2], op[3], op[4], op[5] if len(op) > 5 else {})
             elif kind == "fw":
@@ -1334,7 +1371,17 @@ class NetRun:
                         # ... and that scheduled save fails at one of its operations (threaded flavours: the timer thread)
                         self.fault_at_last_tick = tuple(op[1]["fault"])
                     dt = self.tick_times[-1] + 10.0 - world.sim.now
-                    if dt > 0:
+                    slow = self.cfg.get("slow_fsync")
+                    if slow and self.inject_at_save is not None:
+                        # slow medium: the scheduled save sits in fsync for `slow` seconds; the line arrives and is
+                        # handled in that time, and stop() is called while the save is still not finished
+                        data, self.inject_at_save = self.inject_at_save, None
+                        world.sim.sleep(max(0.0, dt) + 0.2 * slow)
+                        if world.device.current() is not None:
+                            world.device.inject(data)
+                        world.sim.sleep(0.5 * slow)
+                        self.probe("line_handled_during_slow_save")
+                    elif dt > 0:
                         world.sim.sleep(dt)
                     self.probe("stop_at_tick")
                 self.op_restart()
